@@ -64,6 +64,8 @@ def _run(cmd, text, timeout):
     first = out.splitlines()[0].strip() if out else ""
     if first in ("sat", "unsat"):
         return first, dt, out
+    if "(error" in out and "timeout" not in first:
+        return "error", dt, out[:800]
     return "unknown", dt, out[:500]
 
 
@@ -93,6 +95,9 @@ def solve_one(ob, want_second=False):
             break
         if res == "sat":
             ob.status, ob.backend = "refuted", name
+            break
+        if res == "error" and name == "z3-5.1":
+            ob.status, ob.backend = "error", name  # malformed query: a checker error, never a verdict
             break
     else:
         ob.status, ob.backend = "unknown", "none"
